@@ -355,6 +355,51 @@ func c17TokenPos(c *Ctx) {
 		})
 	}
 	r.Floor("TOKEN-POS-CONV", 30)
+	// SLICE-ALIAS: two slice-typed fields of a node must not be views of one backing array (appending to one
+	// would overwrite the other's elements): every slice stored into a tree field is either a whole fresh array,
+	// an append result, or a slice whose capacity is cut to its length.
+	nSl := 0
+	for _, name := range sortedKeys(ctors) {
+		cs := ctors[name]
+		byAlloc := map[*ssa.Alloc][]string{}
+		allInstrs(cs.Fn, func(in ssa.Instruction) {
+			s, ok := in.(*ssa.Store)
+			if !ok {
+				return
+			}
+			fa, ok := s.Addr.(*ssa.FieldAddr)
+			if !ok || !strings.HasPrefix(namedOf(fa.X.Type()), "ast.") {
+				return
+			}
+			sl, ok := s.Val.(*ssa.Slice)
+			if !ok {
+				return
+			}
+			a, ok := sl.X.(*ssa.Alloc)
+			if !ok {
+				return
+			}
+			nSl++
+			key := strings.TrimPrefix(namedOf(fa.X.Type()), "ast.") + "." + fieldName(fa)
+			if sl.Max == nil && (sl.Low != nil || sl.High != nil) {
+				byAlloc[a] = append(byAlloc[a], key+" (partial view, capacity not limited)")
+			} else {
+				byAlloc[a] = append(byAlloc[a], key)
+			}
+		})
+		for a, users := range byAlloc {
+			shared := len(users) > 1
+			partial := false
+			for _, u := range users {
+				if strings.Contains(u, "partial view") {
+					partial = true
+				}
+			}
+			r.Ob("SLICE-ALIAS", fmt.Sprintf("%s backing array #%d", name, ordinalOf(cs.Fn, a)), t.Pos(a.Pos()), !(shared || partial),
+				fmt.Sprintf("fields %v are views of one local array: a later append through one of them writes into the storage of the other (positions of earlier tokens get overwritten)", users))
+		}
+	}
+	r.FloorN("slice-valued tree field stores", nSl, 6)
 }
 
 func c17LnCol(c *Ctx) {
